@@ -5,6 +5,7 @@ result (meaning of the property statement).  This file only transports: it spell
 real config files (three concrete forms), runs harness/vh_config in several FRESH processes (hash order
 changes per process) and compares.
 """
+import concurrent.futures
 import json
 import os
 import random
@@ -159,16 +160,20 @@ def run_harness(ctx, cases, nproc, tagdir, env=None):
                                ({"ws": c["ws"]} if "ws" in c else {})) + "\n")
     e = {"HOME": "/home/u", "a": "/e"}
     e.update(env or {})
-    runs = []
     t0 = time.time()
-    for p in range(nproc):
+
+    def one(p):
         scratch = os.path.join(ctx.work, "%s_p%d" % (tagdir, p))
         os.makedirs(scratch, exist_ok=True)
         pr = vlib.run_bin("vh_config", [path, scratch], timeout=ctx.pick(900, 3000), env=e)
         out = vlib.ndjson(pr.stdout)
         if not any("summary" in o for o in out):
             raise vlib.ToolError("vh_config produced no summary\n" + pr.stderr[-2000:])
-        runs.append({o["id"]: o for o in out if "id" in o})
+        return {o["id"]: o for o in out if "id" in o}
+
+    # the processes are independent (own scratch directory each): up to 4 at a time, results kept in process order
+    with concurrent.futures.ThreadPoolExecutor(max_workers=4) as pool:
+        runs = list(pool.map(one, range(nproc)))
     vlib.log("vh_config %s: %d cases x %d processes in %.0fs" % (tagdir, len(cases), nproc, time.time() - t0))
     return runs
 
